@@ -35,6 +35,11 @@ CONSTANTS Peers,      \* responder nodes, e.g. {2, 3}; the requester is node 1
           MaxCancel,  \* cancel_request calls the user may make
           DialOpts,   \* subset of {"dial", "reject"}
           Fixed,      \* tags of known defects modelled as repaired
+          ImmErr,     \* service.dial() may fail at once (no known address, channel clogged): BOOLEAN
+          Foreign,    \* a dial failure for a peer may be broadcast although this protocol did not dial
+                      \* (the application or another protocol dialed): BOOLEAN
+          Bugs,       \* negative variants for the self-test: "keepctx" = the request context is stored in
+                      \* pending_dials before the fallible dial() and stays there when dial() fails
           Wedge,      \* the manager may leave a dial without any outcome (known C05 defect: negotiated
                       \* connection refused by the outgoing limit, peer stays Dialing, nothing reported)
           KeepHist,   \* record the stimulus history (behaviour generation)
@@ -45,6 +50,8 @@ FixedNone == {}
 FixedD9 == {"d9"}
 BothOpts == {"dial", "reject"}
 DialOnly == {"dial"}
+NoBugs == {}
+KeepCtx == {"keepctx"}
 OnePeer == {p2}
 TwoPeers == {p2, p3}
 
@@ -138,8 +145,11 @@ OnSendRequest(c) ==
       /\ mon' = MonFailEv(mon, R, r)                       \* NotConnected
       /\ UNCHANGED <<inpeers, active, pdial, pout, evars, kf>>
     ELSE IF mgr[p] = "conn" THEN
-      /\ mon' = MonFailEv(mon, R, r)                       \* DialFailed(AlreadyConnected)
-      /\ UNCHANGED <<inpeers, active, pdial, pout, evars, kf>>
+      \* dial() returns Err(AlreadyConnected): the manager has the connection, the protocol has not
+      \* processed ConnectionEstablished yet.  The request fails and nothing is stored.
+      /\ mon' = MonFailEv(mon, R, r)
+      /\ IF "keepctx" \in Bugs THEN InsertDial(p, r) ELSE UNCHANGED <<pdial, kf>>
+      /\ UNCHANGED <<inpeers, active, pout, evars>>
     ELSE IF mdial[p] THEN
       \* TransportManagerHandle::dial: DialingInProgress => Ok(())
       /\ InsertDial(p, r)
@@ -148,9 +158,15 @@ OnSendRequest(c) ==
       \* DialPeer command accepted; if TransportManager::dial refuses it later (connection limit,
       \* no address) the protocols are sent a DialFailure (repo commit 7c774cf) - this is the
       \* dial that fails at once (EDialFail)
-      /\ mdial' = [mdial EXCEPT ![p] = TRUE]
-      /\ InsertDial(p, r)
-      /\ UNCHANGED <<inpeers, active, pout, mgr, wedged, svc, sids, nc, mon>>
+      \/ /\ mdial' = [mdial EXCEPT ![p] = TRUE]
+         /\ InsertDial(p, r)
+         /\ UNCHANGED <<inpeers, active, pout, mgr, wedged, svc, sids, nc, mon>>
+      \* ... or dial() returns an error at once (NoAddressAvailable, ChannelClogged): the request fails
+      \* with DialFailed(Some(error)) and nothing is stored
+      \/ /\ ImmErr
+         /\ mon' = MonFailEv(mon, R, r)
+         /\ IF "keepctx" \in Bugs THEN InsertDial(p, r) ELSE UNCHANGED <<pdial, kf>>
+         /\ UNCHANGED <<inpeers, active, pout, evars>>
   ELSE IF svc[p] # "live" THEN
     /\ mon' = MonFailEv(mon, R, r)                         \* open_substream failed
     /\ UNCHANGED <<inpeers, active, pdial, pout, evars, kf>>
@@ -315,6 +331,15 @@ EDialWedge(p) ==
   /\ hist' = H([a |-> "wedge", p |-> p])
   /\ UNCHANGED <<pvars, mgr, mdial, svc, sids, nc, rvars, mon, kf, nrid>>
 
+\* somebody else's dial of p fails (the application, another protocol): dial failures are broadcast to all
+\* protocols.  Counted against the connection budget to keep the model finite.
+EForeignDialFail(p) ==
+  /\ Foreign /\ mgr[p] = "disc" /\ ~mdial[p] /\ nc < MaxConn
+  /\ nc' = nc + 1
+  /\ evq' = Append(evq, [k |-> "dialfail", x |-> p, i |-> 0])
+  /\ hist' = H([a |-> "foreigndialfail", p |-> p])
+  /\ UNCHANGED <<inpeers, active, pdial, pout, fut, cancels, cmdq, mgr, mdial, wedged, svc, sids, rvars, mon, kf, nrid>>
+
 \* the peer connects to us (or the user dialed it beforehand)
 EInbound(p) ==
   /\ mgr[p] = "disc" /\ nc < MaxConn
@@ -375,7 +400,7 @@ Internal ==
   \/ \E p \in Peers : EDialOk(p) \/ EDialFail(p) \/ EDialWedge(p)
   \/ \E r \in Rids : ESubOpen(r) \/ ESubFail(r)
 Env ==
-  \/ \E p \in Peers : EInbound(p) \/ EClose(p)
+  \/ \E p \in Peers : EInbound(p) \/ EClose(p) \/ EForeignDialFail(p)
   \/ \E r \in Rids : RAnswer(r) \/ RReject(r)
 
 Next == User \/ Internal \/ Env
